@@ -205,6 +205,19 @@ func drivers(tier string, race bool) []driver {
 		return []*roaring64.Bitmap{roaring64.BitmapOf(5<<32+1, 5<<32+65536+2), roaring64.BitmapOf(5<<32+3, 5<<32+131072)}
 	}, 2))
 
+	// capacity: with 33 workers and 132 buckets there are more work items (132) than the two channels and the workers
+	// can hold together (66 + 32 + 33 = 131): whoever feeds the work items must not be the one who collects the results
+	add("capacity: roaring64.ParOr(workers=33, 132 buckets: more work items than channels and workers hold)", 1, or64(func() []*roaring64.Bitmap {
+		a, b := roaring64.New(), roaring64.New()
+		for k := uint64(0); k < 132; k++ {
+			a.Add(k<<32 | 1)
+			if k%2 == 0 {
+				b.Add(k<<32 | 2)
+			}
+		}
+		return []*roaring64.Bitmap{a, b}
+	}, 33))
+
 	// BSI fan-out / fan-in
 	mk64 := func() *roaring64.BSI {
 		b := roaring64.NewDefaultBSI()
